@@ -103,7 +103,7 @@ class Check(CheckBase):
         for i in range(64 if quick else 900):
             cases.append({'kind': ['s3', 'b2'][i % 2], 'seed': random.Random(f'C12/{self.seed}/h/{i}').randrange(1 << 30),
                           'plans': 30 if quick else 60})
-        for i in range(16 if quick else 200):
+        for i in range(32 if quick else 300):
             r = random.Random(f'C12/{self.seed}/r/{i}')
             cases.append({'kind': 'repo', 'backend': ['s3', 'b2'][i % 2], 'seed': r.randrange(1 << 30),
                           'settings': gen.gen_settings(r, chunker=(64, 1024))})
@@ -512,6 +512,7 @@ class Check(CheckBase):
             truth[os.path.realpath(os.path.join(src, f'f{i}'))] = data
         target = os.path.join(scratch, 'target')
         v = []
+        counters_local = {}
 
         async def go():
             from replicat.repository import Repository
@@ -519,18 +520,21 @@ class Check(CheckBase):
             svc.faults = faults
             if kind == 'b2':
                 # the account token expires a few times, never close to a fault burst
-                n = {'left': 3, 'seen': 0}
                 burst_at = [f['nth'] for f in faults]
+                when = [r.randrange(12, 30)]
+                when += [when[0] + r.randrange(25, 45), when[0] + r.randrange(60, 90)]
 
                 def expire(o):
-                    n['seen'] = len(svc.requests)
-                    near = any(abs(n['seen'] - b) < 8 for b in burst_at)
-                    if o in ('b2:upload', 'b2:download', 'b2:list_file_names') and n['left'] and not near and r.random() < 0.08:
-                        n['left'] -= 1
-                        burst_at.append(n['seen'])
+                    seen = len(svc.requests)
+                    near = any(abs(seen - b) < 8 for b in burst_at)
+                    if when and seen >= when[0] and not near and o in ('b2:upload', 'b2:download', 'b2:head', 'b2:list_file_names'):
+                        when.pop(0)
+                        burst_at.append(seen)
+                        counters_local['token_expiries'] = counters_local.get('token_expiries', 0) + 1
                         return True
                     return False
                 svc.expire_all_on = expire
+                svc.authorize_delay = r.choice([0.0, 0.02, 0.05])      # re-authorisation takes a while; siblings must wait for it
             repo = await rep.unlocked(backend, key, concurrent=conc)
             with rep.capture():
                 await repo.snapshot(paths=[Path(src)], rate_limit=r.choice([None, 10_000_000]))
@@ -553,7 +557,7 @@ class Check(CheckBase):
                                                      'trail': [(q['op'], q.get('status'), q.get('fault')) for q in svc.requests[-25:]]}})
         hit = sum(f.get('_hit', 0) for f in faults)
         return {'verdict': 'violated' if v else 'held', 'classes': [f'repo|{kind}|faults-hit={min(hit, 9)}'],
-                'counters': {'repo_level_runs': 1, 'repo_level_faults_hit': hit, 'plans': 1}, 'violations': v}
+                'counters': dict(counters_local, repo_level_runs=1, repo_level_faults_hit=hit, plans=1), 'violations': v}
 
 
 async def _collect(agen):
